@@ -349,6 +349,11 @@ struct Exec {
         if (op.has("fdlimit")) W->fs.fdlimit = (int)op.geti("fdlimit");
         if (op.has("heap_junk")) W->heap.junk = op.getb("heap_junk");
         if (op.has("heap_zero_null")) W->heap.zero_is_null = op.getb("heap_zero_null");
+        if (op.has("no_logger")) {
+            // diagnostics switched off (set_error_logger(NULL)), as the header documents: every message site must cope
+            set_error_logger(op.getb("no_logger") ? NULL : W->log_sink);
+            if (op.getb("no_logger")) count("runs_without_an_error_logger");
+        }
         if (op.has("oas_buf")) gdstk_verif_oas_buffer_size = (uint64_t)op.geti("oas_buf");
         W->fs.policy = knobs;
     }
@@ -2776,6 +2781,15 @@ struct Exec {
                     if (q.prescale != 1) count("model_paths_brought_to_size_by_scale");
                 }
                 for (auto& q : c.polys) {
+                    {
+                        // four vertices that occur twice: the ends of the seam to a hole and of the seam from the hole to an island
+                        std::map<std::pair<model::dg_t, model::dg_t>, int> seen;
+                        int twice = 0;
+                        if (q.pts.size() <= 2000)
+                            for (auto& v : q.pts)
+                                if (++seen[{v.x, v.y}] == 2) twice++;
+                        if (twice >= 4) count(q.pts.size() > 199 ? "model_rings_with_an_island_above_199_vertices" : "model_rings_with_an_island");
+                    }
                     if (q.pts.size() >= 8189) count("model_polygons_of_8189_points_or_more");
                     if (q.hint == 1) count("model_circle_candidates");
                     if (q.pts.size() == 3) count("model_triangles");
